@@ -273,6 +273,11 @@ func RandomScript(r *rand.Rand, mp int, i int) Job {
 				g.read(x, h, 256, 256)
 				g.sync(x)
 				hs[x][c] = g.openConn(x, uint32(10+c), "open")
+				// a stale handle closed again (deferred / duplicate Close of the old session)
+				// must not touch the connection that now owns the id
+				for n := r.Intn(3); n > 0; n-- {
+					g.closeConn(x, h)
+				}
 			}
 		}
 	}
@@ -424,6 +429,129 @@ func OpenAfterClose(mp int) []Job {
 		s := g.script("open-after-close", true)
 		s.WaitMs = 1500
 		jobs = append(jobs, Job{fmt.Sprintf("open-after-close-%d", variant), s})
+	}
+	return jobs
+}
+
+// ReopenScripts: Open(id), Close, Open(id) again (a new object), the stale handle closed
+// again — then traffic for the id must reach the new object, and when the mux closes (locally,
+// by the peer, or by a cut) a Read on it must return.
+func ReopenScripts(mp int) []Job {
+	var jobs []Job
+	for dir := 0; dir < 2; dir++ {
+		for stale := 0; stale <= 2; stale++ {
+			for fail := 0; fail < 3; fail++ {
+				g := newGen(rand.New(rand.NewSource(1)), mp, 4)
+				x, y := dir, 1-dir
+				hy := g.openConn(y, 5, "open")
+				h1 := g.openConn(x, 5, "open")
+				g.write(y, hy, 3)
+				g.sync(y)
+				g.read(x, h1, 64, 64)
+				g.closeConn(x, h1)
+				g.sync(x)
+				h2 := g.openConn(x, 5, []string{"open", "dial"}[stale%2])
+				for n := 0; n < stale; n++ {
+					g.closeConn(x, h1)
+				}
+				g.write(y, hy, 4)
+				g.sync(y)
+				g.read(x, h2, 64, 64)
+				g.write(x, h2, 2)
+				g.sync(x)
+				g.read(y, hy, 64, 64)
+				switch fail {
+				case 0:
+					g.closeMux(x)
+				case 1:
+					g.closeMux(y)
+				case 2:
+					g.cut(y, 3)
+					g.write(y, hy, 6)
+					g.dead = true
+				}
+				g.sync(y)
+				g.read(x, h2, 64, 64)
+				g.read(x, h2, 64, 64)
+				g.aftermath(2)
+				jobs = append(jobs, Job{fmt.Sprintf("reopen-d%d-s%d-f%d", dir, stale, fail), g.script("reopen", true)})
+			}
+		}
+	}
+	return jobs
+}
+
+// TearSweep: the trunk Write of a frame HEADER sends only k of its 8 bytes and fails with a
+// transient error (k = 0..7), the trunk itself keeps working. For k >= 1 the sender must be
+// dead from then on (later writes fail) and the peer must see the frames sent before, then an
+// error — never a frame glued together from two headers. For k = 0 nothing went out: the
+// write fails and the mux lives on.
+func TearSweep(mp int) []Job {
+	var jobs []Job
+	for dir := 0; dir < 2; dir++ {
+		for k := 0; k < 8; k++ {
+			g := newGen(rand.New(rand.NewSource(1)), mp, 4)
+			x, y := dir, 1-dir
+			hx := g.openConn(x, 5, "open")
+			hy := g.openConn(y, 5, "open")
+			hx2 := g.openConn(x, 6, "open")
+			hy2 := g.openConn(y, 6, "open")
+			g.write(x, hx, 3)
+			g.sync(x)
+			g.read(y, hy, 64, 64)
+			g.ops = append(g.ops, Op{Op: "tear", End: x, K: k})
+			// the torn write (not accounted as delivered)
+			g.ops = append(g.ops, Op{Op: "write", End: x, H: hx, Len: 4, Seed: 77, Step: 1})
+			if k > 0 {
+				g.dead = true
+			}
+			g.write(x, hx, 5)
+			g.write(x, hx2, 2)
+			g.write(x, hx, 1)
+			g.sync(x)
+			if k == 0 {
+				g.read(y, hy, 64, 64)
+				g.read(y, hy2, 64, 64)
+				g.read(y, hy, 64, 64)
+				g.closeMux(x)
+				g.sync(x)
+			} else {
+				g.read(y, hy, 64, 64)
+				g.read(y, hy2, 64, 64)
+			}
+			g.aftermath(2)
+			jobs = append(jobs, Job{fmt.Sprintf("tear-d%d-k%d", dir, k), g.script("tear", true)})
+		}
+	}
+	return jobs
+}
+
+// IsolationScripts: frames for an id the receiver never opened are dropped — and must not
+// disturb the connections it has opened (the reader has to consume their payload).
+func IsolationScripts(mp int) []Job {
+	var jobs []Job
+	for dir := 0; dir < 2; dir++ {
+		for _, n := range []int{0, 1, 5, 300} {
+			g := newGen(rand.New(rand.NewSource(1)), mp, 4)
+			x, y := dir, 1-dir
+			hx := g.openConn(x, 5, "open")
+			hy := g.openConn(y, 5, "open")
+			hu := g.openConn(x, 9, "open") // never opened by y
+			g.write(x, hx, 3)
+			g.write(x, hu, n)
+			g.write(x, hx, 4)
+			g.write(x, hu, n+1)
+			g.sync(x)
+			g.read(y, hy, 64, 64)
+			g.read(y, hy, 64, 64)
+			g.write(y, hy, 2)
+			g.sync(y)
+			g.read(x, hx, 64, 64)
+			g.closeMux(x)
+			g.sync(x)
+			g.aftermath(1)
+			jobs = append(jobs, Job{fmt.Sprintf("unopened-d%d-n%d", dir, n), g.script("unopened-id", true)})
+		}
 	}
 	return jobs
 }
